@@ -1,4 +1,6 @@
 import PyamgV.Props.Restate
+import PyamgV.Proofs.ExtPy2Coarse
+import PyamgV.Proofs.ExtPy2CoarseBody
 import PyamgV.Model.C16Coarse
 import PyamgV.Proofs.C16Hist
 import PyamgV.Proofs.C16LinAlg
@@ -45,7 +47,8 @@ Clause by clause (T = theorem about the executed model, H = hypothesis checked p
   extension E51 (section 3c): T `relaxR_schwarz_sweeps`, `relax_schwarz_energy` (H exact recorded inverse blocks),
   T `relax_block_gauss_seidel_energy`, `relax_block_jacobi_energy` (block storage; H exact recorded block inverses, block
   damping bound), T `relax_chebyshev_energy` (H `|1 − λ p(λ)| ≤ 1` on the spectrum), T `relax_gs_energy_complex`,
-  `relax_sor_energy_complex`, `relax_jacobi_energy_complex` (complex Hermitian matrices, model run on Gaussian rationals);
+  `relax_sor_energy_complex`, `relax_jacobi_energy_complex`, `relax_schwarz_energy_complex` (complex Hermitian matrices, model
+  run on Gaussian rationals);
   S complex runs of the other relaxation names -/
 namespace PyamgV.Props.C16
 open PyamgV PyamgV.C16
@@ -264,6 +267,11 @@ restate relax_block_jacobi_energy := PyamgV.C16Y.relax_block_jacobi_energy
 /-- the same two in the energy norm of the CSR matrix of the call (recorded block storage = that matrix) -/
 restate relax_block_gauss_seidel_energy_csr := PyamgV.C16Y.relax_block_gauss_seidel_energy_csr
 restate relax_block_jacobi_energy_csr := PyamgV.C16Y.relax_block_jacobi_energy_csr
+/-- `A.tobsr(blocksize=(bs,bs))` (model `K.Csr.toBsr` = SciPy `csr_tobsr`) has the operator of `A` ... -/
+restate tobsr_same_operator := PyamgV.C16Y.bsrOp_toBsr
+/-- ... so with the recorded block storage `= A.tobsr()` (compared exactly per instance) the clauses hold in `‖·‖_A` -/
+restate relax_block_gauss_seidel_energy_tobsr := PyamgV.C16Y.relax_block_gauss_seidel_energy_tobsr
+restate relax_block_jacobi_energy_tobsr := PyamgV.C16Y.relax_block_jacobi_energy_tobsr
 
 /-- `polynomial` under `|1 − λ p(λ)| ≤ 1` on the spectrum, eigenvectors spanning modulo the radical of the form -/
 restate polynomial_nonexp_of_spectrum_rad := PyamgV.C16Y.polynomial_nonexp_of_spectrum_rad
@@ -278,6 +286,10 @@ restate complex_smoother_from_zero_energy := PyamgV.C16Y.csm_from_zero_energy
 restate relax_gs_energy_complex := PyamgV.C16Y.relax_gs_energy_complex
 restate relax_sor_energy_complex := PyamgV.C16Y.relax_sor_energy_complex
 restate relax_jacobi_energy_complex := PyamgV.C16Y.relax_jacobi_energy_complex
+/-- complex Schwarz: one subdomain step / the Python driver / **the energy clause** with exact inverse blocks -/
+restate schwarz_step_energy_complex := PyamgV.C16Y.schwarzStep_cenergy
+restate schwarz_driver_energy_complex := PyamgV.C16Y.pySchwarz_cenergy
+restate relax_schwarz_energy_complex := PyamgV.C16Y.relax_schwarz_energy_complex
 /-- the hypotheses of the E51 clauses hold together on concrete instances -/
 restate relaxY_hyps_satisfiable := PyamgV.C16Y.relaxY_hyps_satisfiable
 
@@ -315,6 +327,64 @@ theorem dispatch_str_accepts (s : String) :
             · have h1' : ¬ s = "pinv" ∧ ¬ s = "pinv2" := by
                 constructor <;> intro h <;> exact h1 (by simp [h])
               simp [h1, h2, h3, h4, h5, h6, h1'.1, h1'.2]
+
+/-! ## 4b. the dispatch chain as the SOURCE has it (extension E42, Proofs/ExtPy2Coarse.lean)
+
+`Generated.PyLogic2.multilevel_coarse_grid_solver` is translated from the working tree's `coarse_grid_solver` on every
+run (harness/py2lean2.py; nested `solve` definitions are closure values: which definition, what its body calls, what it
+captures).  `ExtPy2Coarse.kindOf` reads the `Kind` off the returned `GenericSolver` object; `ExtPy2W.coarseWorld nc` is
+the world of the two solver modules (facts compared with the installed packages on every run, op `ext_py2_world`).
+The driver runs the generated definition (`ext_py2_call`) against the real function on generated arguments. -/
+
+/-- **Generated.dispatch = C16.dispatch** on EVERY string: the closure created for a documented name is the model's
+`Kind` of that name; any other string raises (both sides `none`) -/
+restate generated_dispatch_str := PyamgV.ExtPy2Coarse.str_refines
+/-- the same for the listed names, one by one -/
+restate generated_dispatch_names := PyamgV.ExtPy2Coarse.names_plain
+/-- an unknown name raises `ValueError`, in every world -/
+restate generated_dispatch_unknown := PyamgV.ExtPy2Coarse.unknown_name
+restate generated_dispatch_unknown_pair := PyamgV.ExtPy2Coarse.unknown_name_pair
+/-- `None` -> the zero solver -/
+restate generated_dispatch_none := PyamgV.ExtPy2Coarse.none_refines
+/-- opaque objects: the pass-through closure iff callable (`Arg.callable`), `ValueError` otherwise (`Arg.other`) -/
+restate generated_dispatch_obj := PyamgV.ExtPy2Coarse.obj_refines
+/-- numbers, Booleans, lists, dictionaries raise `ValueError` -/
+restate generated_dispatch_other := PyamgV.ExtPy2Coarse.other_raises
+/-- `()` and `(solver,)` raise `IndexError` in `unpack_arg` -/
+restate generated_dispatch_short_tuple := PyamgV.ExtPy2Coarse.short_tuple_raises
+/-- `(name, kwargs)`: same kind, and the closure captures the caller's second entry unchanged (direct and Krylov) -/
+restate generated_pair_direct_krylov := PyamgV.ExtPy2Coarse.pair_direct_krylov
+restate generated_pair_none := PyamgV.ExtPy2Coarse.pair_none
+restate generated_pair_callable := PyamgV.ExtPy2Coarse.pair_callable
+/-- relaxation names: `iterations` defaults to 10 in the captured dictionary, the caller's value is kept -/
+restate generated_pair_relax := PyamgV.ExtPy2Coarse.pair_relax
+restate generated_plain_relax_kwargs := PyamgV.ExtPy2Coarse.plain_relax_kwargs
+/-- a relaxation name with a second entry that is not a container raises `TypeError` -/
+restate generated_pair_relax_bad_kwargs := PyamgV.ExtPy2Coarse.pair_relax_bad_kwargs
+/-- Krylov names: `pyamg.krylov` first (keyword `tol`), otherwise `scipy.sparse.linalg` (keyword `rtol`) -/
+restate generated_krylov_source := PyamgV.ExtPy2Coarse.krylov_source
+
+/-! nested definitions of `coarse_grid_solver`, translated with the numerical work abstracted (Proofs/ExtPy2CoarseBody.lean);
+the driver runs them against the REAL code objects of the nested definitions closed over mock values -/
+
+/-- `GenericSolver.__call__` as generated = what `C16.call` models: `asanyarray(b)`; `zeros(b.shape)` WITHOUT calling
+`solve` when `A.nnz == 0`, `solve(self, A, b)` otherwise; `asarray(x).reshape(b.shape)`; a right-hand side that is
+neither `ndarray` nor `matrix` raises `ValueError` -/
+restate generated_call_refines := PyamgV.ExtPy2Body.call_refines
+/-- the Krylov closure: `fn(A, b, **kw)[0]` with `tol` renamed to `rtol` for SciPy functions and the default
+`set_tol(A.dtype)` only when the tolerance keyword is absent; all keyword values -/
+restate generated_krylov_kwargs := PyamgV.ExtPy2Body.krylov_refines
+/-- hence a SciPy function never receives `tol` and always receives `rtol`, for every keyword dictionary -/
+restate generated_krylov_scipy_keys := PyamgV.ExtPy2Body.krylovKw_scipy_keys
+/-- the relaxation closure: fresh level holding `A`, `setup_<name>(lvl, **kwargs)`, start vector `zeros_like(b)`, one
+call of the smoother, the start vector object is returned; every relaxation name, all keyword dictionaries -/
+restate generated_relax_body := PyamgV.ExtPy2Body.relax_refines
+restate generated_relax_unknown := PyamgV.ExtPy2Body.relax_unknown
+
+/-- non-vacuity: what the generated definition returns for `('gauss_seidel', {'sweep': 'symmetric'})` -/
+example : (Generated.PyLogic2.multilevel_coarse_grid_solver (ExtPy2W.coarseWorld [])
+      (.tuple [.str "gauss_seidel", .dict [("sweep", .str "symmetric")]])).toOption.bind ExtPy2Coarse.kwargsOf
+    = some (.dict [("sweep", .str "symmetric"), ("iterations", .int 10)]) := by rfl
 
 /-! ## non-vacuity -/
 
@@ -387,5 +457,22 @@ example :
     C16R.relaxSolveR id "block_gauss_seidel" { iterations := some 1 } { bs := 2, bsr := B, dinv := D } A
       #[1, 1, 1, 1] = .ok #[1, 1, 5/3, 4/3] ∧
     (C16R.cscOf A).ap = A.ap ∧ (C16R.cscOf A).aj = A.aj ∧ (C16R.cscOf A).ax = A.ax := by decide +kernel
+
+/-- E51: that block storage is the model's `A.tobsr(blocksize=(2,2))` (hypothesis `htb` of the `_tobsr` clauses) -/
+example :
+    let A : K.Csr Rat := ⟨4, #[0, 2, 5, 8, 10], #[0, 1, 0, 1, 2, 1, 2, 3, 2, 3], #[2, -1, -1, 2, -1, -1, 2, -1, -1, 2]⟩
+    let B : K.Csr Rat := ⟨2, #[0, 2, 4], #[0, 1, 0, 1], #[2, -1, -1, 2, 0, 0, -1, 0, 0, -1, 0, 0, 2, -1, -1, 2]⟩
+    A.toBsr 2 = some (C16Y.toB B 2) := by
+  intro A B
+  have h : (A.toBsr 2).map (fun T => (T.nb, T.bs, T.bp, T.bj, T.bx)) = some (B.n, 2, B.ap, B.aj, B.ax) := by
+    decide +kernel
+  cases hT : A.toBsr 2 with
+  | none => rw [hT] at h; cases h
+  | some T =>
+    rw [hT] at h
+    simp only [Option.map_some, Option.some.injEq, Prod.mk.injEq] at h
+    obtain ⟨h1, h2, h3, h4, h5⟩ := h
+    cases T
+    simp_all
 
 end PyamgV.Props.C16
